@@ -539,17 +539,17 @@ impl MDL {
                             VertexUsage::Position => match element.vertex_type {
                                 VertexType::Single4 => {
                                     vertices[k as usize].position.clone_from_slice(
-                                        &MDL::read_single4(&mut cursor).unwrap()[0..3],
+                                        &MDL::read_single4(&mut cursor).ok()?[0..3],
                                     );
                                 }
                                 VertexType::Half4 => {
                                     vertices[k as usize].position.clone_from_slice(
-                                        &MDL::read_half4(&mut cursor).unwrap()[0..3],
+                                        &MDL::read_half4(&mut cursor)?[0..3],
                                     );
                                 }
                                 VertexType::Single3 => {
                                     vertices[k as usize].position =
-                                        MDL::read_single3(&mut cursor).unwrap();
+                                        MDL::read_single3(&mut cursor).ok()?;
                                 }
                                 _ => {
                                     panic!(
@@ -561,14 +561,14 @@ impl MDL {
                             VertexUsage::BlendWeights => match element.vertex_type {
                                 VertexType::ByteFloat4 => {
                                     vertices[k as usize].bone_weight =
-                                        MDL::read_byte_float4(&mut cursor).unwrap();
+                                        MDL::read_byte_float4(&mut cursor)?;
                                 }
                                 VertexType::Byte4 => {
                                     vertices[k as usize].bone_weight =
-                                        MDL::read_tangent(&mut cursor).unwrap();
+                                        MDL::read_tangent(&mut cursor)?;
                                 }
                                 VertexType::UnsignedShort4 => {
-                                    let bytes = MDL::read_unsigned_short4(&mut cursor).unwrap();
+                                    let bytes = MDL::read_unsigned_short4(&mut cursor).ok()?;
                                     vertices[k as usize].bone_weight = [
                                         f32::from(bytes[0]),
                                         f32::from(bytes[1]),
@@ -586,10 +586,10 @@ impl MDL {
                             VertexUsage::BlendIndices => match element.vertex_type {
                                 VertexType::Byte4 => {
                                     vertices[k as usize].bone_id =
-                                        MDL::read_byte4(&mut cursor).unwrap();
+                                        MDL::read_byte4(&mut cursor).ok()?;
                                 }
                                 VertexType::UnsignedShort4 => {
-                                    let shorts = MDL::read_unsigned_short4(&mut cursor).unwrap();
+                                    let shorts = MDL::read_unsigned_short4(&mut cursor).ok()?;
                                     vertices[k as usize].bone_id = [
                                         shorts[0] as u8,
                                         shorts[1] as u8,
@@ -607,12 +607,12 @@ impl MDL {
                             VertexUsage::Normal => match element.vertex_type {
                                 VertexType::Half4 => {
                                     vertices[k as usize].normal.clone_from_slice(
-                                        &MDL::read_half4(&mut cursor).unwrap()[0..3],
+                                        &MDL::read_half4(&mut cursor)?[0..3],
                                     );
                                 }
                                 VertexType::Single3 => {
                                     vertices[k as usize].normal =
-                                        MDL::read_single3(&mut cursor).unwrap();
+                                        MDL::read_single3(&mut cursor).ok()?;
                                 }
                                 _ => {
                                     panic!(
@@ -623,25 +623,25 @@ impl MDL {
                             },
                             VertexUsage::UV => match element.vertex_type {
                                 VertexType::ByteFloat4 => {
-                                    let combined = MDL::read_byte_float4(&mut cursor).unwrap();
+                                    let combined = MDL::read_byte_float4(&mut cursor)?;
 
                                     vertices[k as usize].uv0.clone_from_slice(&combined[0..2]);
                                     vertices[k as usize].uv1.clone_from_slice(&combined[2..4]);
                                 }
                                 VertexType::Half4 => {
-                                    let combined = MDL::read_half4(&mut cursor).unwrap();
+                                    let combined = MDL::read_half4(&mut cursor)?;
 
                                     vertices[k as usize].uv0.clone_from_slice(&combined[0..2]);
                                     vertices[k as usize].uv1.clone_from_slice(&combined[2..4]);
                                 }
                                 VertexType::Single4 => {
-                                    let combined = MDL::read_single4(&mut cursor).unwrap();
+                                    let combined = MDL::read_single4(&mut cursor).ok()?;
 
                                     vertices[k as usize].uv0.clone_from_slice(&combined[0..2]);
                                     vertices[k as usize].uv1.clone_from_slice(&combined[2..4]);
                                 }
                                 VertexType::Half2 => {
-                                    let combined = MDL::read_half2(&mut cursor).unwrap();
+                                    let combined = MDL::read_half2(&mut cursor)?;
 
                                     vertices[k as usize].uv0.clone_from_slice(&combined[0..2]);
                                 }
@@ -655,7 +655,7 @@ impl MDL {
                             VertexUsage::BiTangent => match element.vertex_type {
                                 VertexType::ByteFloat4 => {
                                     vertices[k as usize].bitangent =
-                                        MDL::read_tangent(&mut cursor).unwrap();
+                                        MDL::read_tangent(&mut cursor)?;
                                 }
                                 _ => {
                                     panic!(
@@ -679,7 +679,7 @@ impl MDL {
                             VertexUsage::Color => match element.vertex_type {
                                 VertexType::ByteFloat4 => {
                                     vertices[k as usize].color =
-                                        MDL::read_byte_float4(&mut cursor).unwrap();
+                                        MDL::read_byte_float4(&mut cursor)?;
                                 }
                                 _ => {
                                     panic!(
